@@ -289,24 +289,43 @@ def g_long(rng):
     return ":" + "l" * n + " " + "o" * n + "=" + "c" * n + ' "' + "q" * n
 
 
+def huge_family(k, n):
+    """very long input number k of size n -> (text, expected result), known by construction"""
+    S = lambda s: "S" + enc_str(s)
+    if k == 0:
+        return "cmd" + " a" * n, "OK 1;1,N,S,N,N,%s,A%s" % (S("cmd"), " ".join(["97"] * n))
+    if k == 1:
+        return " " * n + "cmd" + " " * n + "arg" + " " * n, "OK 1;1,N,S,N,N,%s,A%s" % (S("cmd"), enc_str("arg"))
+    if k == 2:
+        return "o=c \"" + "x" * n + "\"", "OK 1;1,N,S,N,%s,%s,A%s" % (S("o"), S("c"), enc_str("x" * n))
+    if k == 3:
+        return "cmd " + "\\\\" * n, "OK 1;1,N,S,N,N,%s,A%s" % (S("cmd"), enc_str("\\" * n))
+    if k == 4:
+        return "cmd " + "\\\\" * n + "\\", "ERR ControlWithoutValidValue 1"
+    if k == 5:
+        return "cmd \"" + "q" * n, "ERR MissingEndQuotes 1"
+    if k == 6:
+        return (":" + "l" * n + " " + "o" * n + "=" + "c" * n + " #" + "z" * n,
+                "OK 1;1,N,S,%s,%s,%s,N" % (S(":" + "l" * n), S("o" * n), S("c" * n)))
+    if k == 7:
+        return "#" * n, "OK 1;1,N,E"
+    if k == 8:
+        return "\n" * n, ";".join(["OK %d" % n] + ["%d,N,E" % (j + 1) for j in range(n)])
+    if k == 9:
+        return "a\r\n" * n + "!", "ERR PreNoCommand %d" % (n + 1)
+    return "a\n" * n + "b \\q\nc\n", "ERR ControlWithoutValidValue %d" % (n + 1)
+
+
+N_HUGE_FAMILIES = 11
+
+
 def huge_cases(rng, thorough):
     """very long inputs for the implementation only, with the expected result known by construction"""
     out = []
-    S = lambda s: "S" + enc_str(s)
     for n in ([20000, 200000] if thorough else [20000, 60000]):
         n += rng.randint(0, 50)
-        out.append(("cmd" + " a" * n, "OK 1;1,N,S,N,N,%s,A%s" % (S("cmd"), " ".join(["97"] * n))))
-        out.append((" " * n + "cmd" + " " * n + "arg" + " " * n, "OK 1;1,N,S,N,N,%s,A%s" % (S("cmd"), enc_str("arg"))))
-        out.append(("o=c \"" + "x" * n + "\"", "OK 1;1,N,S,N,%s,%s,A%s" % (S("o"), S("c"), enc_str("x" * n))))
-        out.append(("cmd " + "\\\\" * n, "OK 1;1,N,S,N,N,%s,A%s" % (S("cmd"), enc_str("\\" * n))))
-        out.append(("cmd " + "\\\\" * n + "\\", "ERR ControlWithoutValidValue 1"))
-        out.append(("cmd \"" + "q" * n, "ERR MissingEndQuotes 1"))
-        out.append((":" + "l" * n + " " + "o" * n + "=" + "c" * n + " #" + "z" * n,
-                    "OK 1;1,N,S,%s,%s,%s,N" % (S(":" + "l" * n), S("o" * n), S("c" * n))))
-        out.append(("#" * n, "OK 1;1,N,E"))
-        out.append(("\n" * n, ";".join(["OK %d" % n] + ["%d,N,E" % (k + 1) for k in range(n)])))
-        out.append(("a\r\n" * n + "!", "ERR PreNoCommand %d" % (n + 1)))
-        out.append(("a\n" * n + "b \\q\nc\n", "ERR ControlWithoutValidValue %d" % (n + 1)))
+        for k in range(N_HUGE_FAMILIES):
+            out.append((k, n) + huge_family(k, n))
     return out
 
 
@@ -326,6 +345,38 @@ def first_line_break_free(l):
 
 
 # ---- the check -----------------------------------------------------------------------------------
+def replay(ck, data):
+    """bin/vcheck C08 --replay file: re-run the single input of a replay file on both sides"""
+    print(json.dumps({k: v for k, v in data.items() if k != "coq_log_tail"}, indent=1, ensure_ascii=False)[:3000])
+    wire = data.get("wire")
+    if wire is None:
+        print("replay: this file names a broken obligation, not an input; re-run the check itself")
+        return 1
+    ck.ocaml_build()
+    ck.harness_build(["c08"])
+    if wire.startswith("HUGE\t"):
+        k, n = data["huge_family"]
+        text, exp = huge_family(k, n)
+        i = ck.impl(["P\t" + enc_str(text)])[0]
+        print("expected:       " + exp[:300])
+        print("implementation: " + i[:300])
+        same = i == exp
+    else:
+        m = ck.model([wire])[0]
+        i = ck.impl([wire])[0]
+        mm, ss, ixr = (m.split("\t") + ["", ""])[:3]
+        print("model:          " + mm)
+        print("spec:           " + ss)
+        print("index model:    " + ixr)
+        print("implementation: " + i)
+        exp = data.get("expected")
+        if exp is not None:
+            print("expected:       " + exp)
+        same = mm == i and ss == i and ixr == i and (exp is None or i == exp)
+    print("REPLAY: " + ("agree now" if same else "still disagree"))
+    return 0 if same else 1
+
+
 def nontrivial(res):
     return res.startswith("ERR") or ",S," in res or ",P," in res
 
@@ -477,11 +528,12 @@ def run(ck):
 
     # very long inputs: implementation only, expectation known by construction
     huge = huge_cases(rng, thorough)
-    hi = ck.impl(["P\t" + enc_str(t) for (t, _) in huge])
-    for (t, exp), i in zip(huge, hi):
+    hi = ck.impl(["P\t" + enc_str(t) for (_, _, t, _) in huge])
+    for (k, n, t, exp), i in zip(huge, hi):
         if i != exp:
-            report("very long input: expected-vs-implementation", t[:300] + "...(%d characters)" % len(t), "P\t(too long; see text)",
-                   "(not run)", exp[:300], i[:300], {"length": len(t)})
+            report("very long input: expected-vs-implementation", t[:300] + "...(%d characters)" % len(t), "HUGE\t%d\t%d" % (k, n),
+                   "(not run)", exp[:300], i[:300], {"length": len(t), "huge_family": [k, n],
+                                                     "replay_cmd": "bin/vcheck C08 --replay <this file>"})
 
     # (d) members of the error classes of C08_errors, rendered by the extracted render_bad, planted
     specs = [g_bad_spec(rng) for _ in range(12000 if thorough else 2500)]
@@ -544,7 +596,7 @@ def run(ck):
         "exhaustive_part": {"texts": exh_total, "accepted": exh_ok, "accepted_with_nonempty_instruction": exh_ne, "rejected": exh_err,
                             "blocks": len(xlines), "blocks_differing": len(bad_blocks)},
         "individual_cases": len(cases),
-        "very_long_inputs(implementation only, expectation by construction)": {"cases": len(huge), "max_characters": max(len(t) for t, _ in huge)},
+        "very_long_inputs(implementation only, expectation by construction)": {"cases": len(huge), "max_characters": max(len(t) for _, _, t, _ in huge)},
         "case_kinds": tags,
         "result_distribution": dist,
         "lines_per_text_histogram(capped at 20)": nlines_hist,
